@@ -192,7 +192,12 @@ func c16Sched(rep *core.Report, pool *core.Pool) {
 func c17Sched(rep *core.Report, pool *core.Pool) {
 	resume := cBase(client.ConnectionTypeFull)
 	resume.FirstReady = 57
+	// an application that needs 1.5 s per notification and resumes from its own last handled id: the
+	// connection drops while notifications are still queued for the handlers
+	slow := cBase(client.ConnectionTypeFull)
+	slow.HandlerDelay, slow.OwnID = 1500*time.Millisecond, true
 	cSchedExplore(rep, pool, []cPlanTask{
+		{Params: cParams{Prop: "C17", Cfg: slow, Replay: true}, Hist: []string{"note:tx", "note:upd", "note:tx", "drop", "tick:2100", "tick:1000", "tick:1000", "tick:1000", "tick:1000"}},
 		{Params: cParams{Prop: "C17", Cfg: resume, Replay: true, Preload: 2}, Hist: []string{"tick:100", "note:tx", "note:upd", "tick:100"}},
 		{Params: cParams{Prop: "C17", Cfg: cBase(client.ConnectionTypeFull), Replay: true}, Hist: []string{"note:tx", "note:hdrs", "note:upd", "drop", "tick:2100", "note:tx", "tick:100"}},
 	}, []planStep{{Kind: "stall", Alt: 50}, {Kind: "switch", Alt: 0}, {Kind: "switch", Alt: 1}, {Kind: "switch", Alt: 2}, {Kind: "switch", Alt: 3}, {Kind: "switch", Alt: 4}, {Kind: "switch", Alt: 5}, {Kind: "drop"}})
